@@ -447,6 +447,43 @@ struct Pair
 using asl::byte;
 #endif
 
+#ifdef ASL_VERIF
+// Verification hooks (off unless ASL_VERIF is defined): a weak schedule-point callback that a test
+// harness may provide, and ThreadSanitizer annotations for the ready-flag hand-over in Thread.h
+extern "C" void asl_verif_point(int id, const volatile void* obj) __attribute__((weak));
+#define ASL_VERIF_POINT(id, obj) do { if (asl_verif_point) asl_verif_point((id), (obj)); } while (0)
+enum {
+	ASL_VP_ATOMIC_INC = 1, ASL_VP_ATOMIC_DEC, ASL_VP_THREAD_CREATED, ASL_VP_THREAD_ENTRY, ASL_VP_THREAD_READY,
+	ASL_VP_THREAD_HANDOVER_DONE, ASL_VP_THREAD_EXIT, ASL_VP_THREAD_JOIN, ASL_VP_THREAD_JOINED, ASL_VP_SRV_ACCEPTED,
+	ASL_VP_SRV_STOP_CHECK, ASL_VP_SRV_CLIENT_DONE_PRE, ASL_VP_SRV_CLIENT_DONE_POST, ASL_VP_SRV_LOOP_EXIT
+};
+#if defined(__SANITIZE_THREAD__)
+extern "C" void __tsan_acquire(void* addr);
+extern "C" void __tsan_release(void* addr);
+extern "C" void AnnotateIgnoreReadsBegin(const char* f, int l);
+extern "C" void AnnotateIgnoreReadsEnd(const char* f, int l);
+extern "C" void AnnotateIgnoreWritesBegin(const char* f, int l);
+extern "C" void AnnotateIgnoreWritesEnd(const char* f, int l);
+#define ASL_VERIF_RELEASE(p) __tsan_release((void*)(p))
+#define ASL_VERIF_ACQUIRE(p) __tsan_acquire((void*)(p))
+#define ASL_VERIF_FLAG_READ_BEGIN() AnnotateIgnoreReadsBegin(__FILE__, __LINE__)
+#define ASL_VERIF_FLAG_READ_END() AnnotateIgnoreReadsEnd(__FILE__, __LINE__)
+#define ASL_VERIF_FLAG_WRITE_BEGIN() AnnotateIgnoreWritesBegin(__FILE__, __LINE__)
+#define ASL_VERIF_FLAG_WRITE_END() AnnotateIgnoreWritesEnd(__FILE__, __LINE__)
+#endif
+#endif
+#ifndef ASL_VERIF_POINT
+#define ASL_VERIF_POINT(id, obj) ((void)0)
+#endif
+#ifndef ASL_VERIF_RELEASE
+#define ASL_VERIF_RELEASE(p) ((void)0)
+#define ASL_VERIF_ACQUIRE(p) ((void)0)
+#define ASL_VERIF_FLAG_READ_BEGIN() ((void)0)
+#define ASL_VERIF_FLAG_READ_END() ((void)0)
+#define ASL_VERIF_FLAG_WRITE_BEGIN() ((void)0)
+#define ASL_VERIF_FLAG_WRITE_END() ((void)0)
+#endif
+
 #include "time.h"
 #include "atomic.h"
 
